@@ -2,20 +2,23 @@
 """save_seeded.py <ID> <mN> "<needs>"  -- copy a confirmed seeded change from /tmp/mut into /verif/seeded/<ID>-<mN>/"""
 import json, os, shutil, sys, subprocess
 pid, m, needs = sys.argv[1], sys.argv[2], sys.argv[3]
-src = f"/tmp/mut/{pid}/_out/{m}"
-dst = f"/verif/seeded/{pid}-{m}"
+R2 = os.environ.get("ROUND") == "2"   # round 2: sub-agents worked on the current tree (all fixes applied)
+root = "/tmp/mut2" if R2 else "/tmp/mut"
+src = f"{root}/{pid}/_out/{m}"
+dst = f"/verif/seeded/{pid}-r2-{m}" if R2 else f"/verif/seeded/{pid}-{m}"
 os.makedirs(dst, exist_ok=True)
 for f in ["patch.diff", "demo.diff", "NOTES.md", "patch.rebased.diff"]:
     if os.path.exists(f"{src}/{f}"):
         shutil.copy(f"{src}/{f}", f"{dst}/{f}")
-log = open("/tmp/confirm_batch1.log").read() if os.path.exists("/tmp/confirm_batch1.log") else ""
-conf = [l for l in log.splitlines() if f"/tmp/mut/{pid}/_out/{m}:" in l]
+lf = "/tmp/confirm_round2.log" if R2 else "/tmp/confirm_batch1.log"
+log = open(lf).read() if os.path.exists(lf) else ""
+conf = [l for l in log.splitlines() if f"{root}/{pid}/_out/{m}:" in l]
 meta = {
   "property": pid,
-  "origin": "independent sub-agent given only the property text and a scratch worktree of the pinned base commit bbf5222",
+  "origin": ("independent sub-agent given only the property text and a scratch worktree of the current tree (hooks and fix: commits included)" if R2 else "independent sub-agent given only the property text and a scratch worktree of the pinned base commit bbf5222"),
   "needs_to_manifest": needs,
   "confirmed": conf[-1] if conf else "NOT CONFIRMED",
-  "what_i_ran": "tools/confirm_mutant.sh (scratch worktree of bbf5222: demo.diff alone -> cargo nextest all pass; demo.diff + patch.diff -> the 81 existing tests pass and only the demo tests fail), then tools/try_mutant.sh <patch> quick <checks> against /repo (git apply, run, git checkout)",
+  "what_i_ran": "tools/confirm_mutant.sh (scratch worktree of " + ("HEAD" if R2 else "bbf5222") + ": demo.diff alone -> cargo nextest all pass; demo.diff + patch.diff -> the 81 existing tests pass and only the demo tests fail), then tools/try_mutant.sh <patch> quick <checks> against /repo (git apply, run, git checkout)",
   "apply_to_current_tree": "patch.rebased.diff" if os.path.exists(f"{src}/patch.rebased.diff") else "patch.diff",
   "detected_by": {},
 }
